@@ -13,6 +13,8 @@ EXTENDS HostMatch, Json, IOUtils, TLCExt
 
 T == JsonDeserialize(IOEnv.TRACE_FILE)
 
+TrLabels12 == { <<"a">>, <<"b">>, <<"a", "b">>, <<"*">>, <<"a", "*">>, <<"*", "a">>, <<"a", "*", "b">>, <<"*", "*">>,
+                <<"x", "n", "-", "-", "a">>, <<"x", "n", "-", "-", "*">>, <<>>, <<"A">> }
 TrLabels14 == { <<"a">>, <<"b">>, <<"a", "b">>, <<"*">>, <<"a", "*">>, <<"*", "a">>, <<"a", "*", "b">>, <<"*", "*">>,
                 <<"x", "n", "-", "-", "a">>, <<"x", "n", "-", "-", "*">>, <<>>, <<"A">>, <<"X", "N", "-", "-", "*">>,
                 <<"X", "N", "-", "-", "a">> }
@@ -29,16 +31,19 @@ San(tr) == [i \in 1..Len(tr.san) |-> T.entries[tr.san[i]]]
 AceTag(b) == IF b THEN "/uppercase-ace-prefix-wildcard" ELSE ""
 
 \* ---- kind "set"
-SetBad(tr) ==
+SetClass(tr) == [h \in Hosts |-> DnsClass(tr.dn, h)]
+SetBadC(tr, cls) ==
     LET acc == {tr.acc[i] : i \in 1..Len(tr.acc)} IN
-    {<<0, "MustAccept:Strict", NameStr(h)>> : h \in {g \in Hosts : DnsMustAccept(tr.dn, g) /\ g \notin acc}}
+    {<<0, "MustAccept:Strict", NameStr(h)>> : h \in {g \in Hosts : cls[g] = "must" /\ g \notin acc}}
     \cup {<<i, "MustReject:" \o DnsRejectClause(tr.dn, tr.acc[i]) \o AceTag(AceCase(tr.dn, tr.acc[i])), NameStr(tr.acc[i])>> :
              i \in {j \in 1..Len(tr.acc) : DnsMustReject(tr.dn, tr.acc[j])}}
     \cup {<<i, "OutsideDomain", NameStr(tr.acc[i])>> : i \in {j \in 1..Len(tr.acc) : tr.acc[j] \notin Hosts}}
-SetTally(tr) ==
-    LET must == Cardinality({h \in Hosts : DnsMustAccept(tr.dn, h)})
-        mustnot == Cardinality({h \in Hosts : DnsMustReject(tr.dn, h)}) IN
+SetTallyC(tr, cls) ==
+    LET must == Cardinality({h \in Hosts : cls[h] = "must"})
+        mustnot == Cardinality({h \in Hosts : cls[h] = "mustnot"}) IN
     <<Cardinality(Hosts), must, mustnot, Cardinality(Hosts) - must - mustnot>>
+\* the class of every host of the domain is computed once per trace and shared by the verdicts and the tallies
+SetJudge(tr) == LET cls == SetClass(tr) IN <<SetBadC(tr, cls), SetTallyC(tr, cls)>>
 
 \* ---- kind "list"      case = <<host index, cn index (0 = none), switch, api, accepted>>
 ListCaseClause(tr, q) ==
@@ -69,17 +74,21 @@ FpTally(tr) ==
     LET must == Cardinality({i \in 1..Len(tr.cases) : FpAccept(tr.cases[i][1], Dig(tr.blob))}) IN
     <<Len(tr.cases), must, Len(tr.cases) - must, 0>>
 
-Bad(tr) == CASE tr.kind = "set" -> SetBad(tr) [] tr.kind = "list" -> ListBad(tr) [] tr.kind = "fp" -> FpBad(tr)
-Tally(tr) == CASE tr.kind = "set" -> SetTally(tr) [] tr.kind = "list" -> ListTally(tr) [] tr.kind = "fp" -> FpTally(tr)
+\* <<set of failing cases, tallies>>
+Judge(tr) == CASE tr.kind = "set" -> SetJudge(tr)
+               [] tr.kind = "list" -> <<ListBad(tr), ListTally(tr)>>
+               [] tr.kind = "fp" -> <<FpBad(tr), FpTally(tr)>>
 
 TInit == st = 1
 TNext == /\ st <= Len(T.traces)
          /\ LET tr == T.traces[st]
-                ty == Tally(tr) IN
+                jd == Judge(tr)
+                bd == jd[1]
+                ty == jd[2] IN
             \* one STRING per line: TLC's pretty-printer wraps long tuples over several lines, never a string
-            /\ \A b \in Bad(tr) : PrintT("VERDICT|" \o ToString(st) \o "|" \o ToString(b[1]) \o "|" \o b[2] \o "|" \o b[3])
+            /\ \A b \in bd : PrintT("VERDICT|" \o ToString(st) \o "|" \o ToString(b[1]) \o "|" \o b[2] \o "|" \o b[3])
             /\ PrintT("DONE|" \o ToString(st) \o "|" \o ToString(ty[1]) \o "|" \o ToString(ty[2]) \o "|" \o ToString(ty[3])
-                       \o "|" \o ToString(ty[4]) \o "|" \o ToString(Cardinality(Bad(tr))))
+                       \o "|" \o ToString(ty[4]) \o "|" \o ToString(Cardinality(bd)))
          /\ st' = st + 1
 TSpec == TInit /\ [][TNext]_vars
 =============================================================================
